@@ -210,9 +210,51 @@ def r4_purity_and_label(repo: Repo, rep):
         if ci.name in ROWWISE_SCOPE:
             mix = sorted({n.attr for n in ast.walk(fi.node) if isinstance(n, ast.Attribute) and n.attr in MIXING})
             if mix:
-                rep.undecided(R6, fi.site(), fi.fq, "only row-preserving tensor operations", f"uses {mix}: row independence not decidable by this rule")
+                _axes_decide(rep, R6, ci, fi, mix)
             else:
                 rep.ok(R6, fi.site(), fi.fq, "only row-preserving tensor operations", "no reshape/transpose/permute/view/flatten/roll/flip")
+
+
+def _axes_decide(rep, R6, ci, fi, mix):
+    """re-arranging operations in a row-wise model: decide by axis roles for inputs with one and with two batch axes"""
+    from ..absdom.axes import AxesEval, NotAxes, Scrambled
+    pname = fi.params[1]
+    for rank_axes in ([("B1",), ("C",)], [("B1",), ("B2",), ("C",)]):
+        batch = rank_axes[:-1]
+
+        def atom(n, rank_axes=rank_axes):
+            t = dump(n)
+            if t in (f"self._fix_points_order({pname})", f"self._fix_points_order({pname}).as_tensor", f"self._fix_points_order({pname})._t"):
+                return rank_axes
+            if isinstance(n, ast.Call) and isinstance(n.func, ast.Attribute) and dump(n.func.value) == "self" and n.args and n.func.attr not in ("_fix_points_order",):
+                inner = ev.ev(n.args[0])  # sub-module acting on the last axis
+                return inner[:-1] + [("O",)]
+            if isinstance(n, ast.Call) and attr_chain(n.func) in ("torch.arange", "torch.linspace"):
+                return [("F",)]
+            if isinstance(n, ast.BinOp) and isinstance(n.op, ast.Mult) and isinstance(n.left, (ast.Constant, ast.Attribute)) and not isinstance(n.left, ast.Call):
+                try:
+                    return ev.ev(n.right)
+                except NotAxes:
+                    return None
+            return None
+
+        def size_role(n, e):
+            return None
+        ev = AxesEval(atom, size_role)
+        for p in paths(fi.node):
+            if p.ret is RAISE or p.ret is None:
+                continue
+            r = p.ret
+            val = r.args[0] if isinstance(r, ast.Call) and attr_chain(r.func) == "Points" and r.args else r
+            try:
+                axes = ev.ev(val)
+                ok = axes[: len(batch)] == batch and len(axes) == len(batch) + 1
+                rep.check(R6, ok, fi.site(p.ret_node), fi.fq, f"output keeps the batch axes {batch} in place (input rank {len(rank_axes)})", f"output axes {axes}", f"rank {len(rank_axes)}: {axes}")
+            except Scrambled as err:
+                rep.violation(R6, fi.site(p.ret_node), fi.fq, f"rows stay separate for inputs with {len(batch)} batch axis/axes", str(err)[:300], f"rank {len(rank_axes)}: scrambled")
+            except NotAxes as err:
+                rep.undecided(R6, fi.site(p.ret_node), fi.fq, "only row-preserving tensor operations", f"uses {mix}: {err}")
+            break
 
 
 def r2_fix_points_order(repo: Repo, rep):
